@@ -30,6 +30,8 @@ def single_entry_cases(tier):
     quick = tier == "quick"
     out = []
     lens = [1, 99, 100, 101, 155, 156, 157, 255, 256] if quick else [1, 2, 98, 99, 100, 101, 102, 154, 155, 156, 157, 158, 254, 255, 256, 257, 300]
+    # extension payloads (GNU long name with / without its NUL, PAX path record) that fill whole 512-byte records exactly, and their neighbours
+    lens += [502, 511, 512] if quick else [500, 501, 502, 503, 504, 510, 511, 512, 513, 1013, 1014, 1023, 1024]
     for n in lens:
         p = name_of_len(n)
         for dialect in ("ustar", "gnu", "pax"):
